@@ -27,8 +27,8 @@ CHECKS = {
    text="evaluateCollectionExpression is verified against EvalCollP/FoldColl with a loop invariant FoldColl(i) == FoldColl(0): index order, first decisive element or first error ends the fold, empty gives any=false/all=true, non-list/non-string-keyed-map is an error; the binding lists built per element must equal bindList/bindMap from the property (value alias first, then key/index value; one-name form = value for lists, key for maps); the alias-resolution loop of getValue is verified against ResolveFrom (innermost binding first, alias re-resolved through the outer bindings, key/index names cannot be stepped into).",
    note=BASE_TRUST + "; A-PS, A-SORT, A-STACK.", tech=TECH, ref="DESIGN.md §6 C06"),
  "C09": dict(cat="proof",
-   text="Every reflect call, type assertion, index/slice, nil dereference and indirect call in every function reachable from Evaluate carries a precondition obligation generated from the real code's SSA (zero-annotation safety sweep), and `err != nil ==> !res` is a postcondition of every function of the chain; all are discharged by SMT for an unconstrained datum (any kind, nil at any depth). Termination of the recursions and all loops by decreases clauses.",
-   note=BASE_TRUST + "; A-PS (pointerstructure.Get total), A-OPTS (options come from this package's constructors), wf(ast) supplied by the parser (C10), A-STACK.",
+   text="Every reflect call, type assertion, index/slice, nil dereference and indirect call in every function reachable from Evaluate carries a precondition obligation generated from the real code's SSA (zero-annotation safety sweep; the set of functions is recomputed on every run as everything reachable from Evaluate and Filter.Execute in the call graph, so a helper added later is swept whether or not anybody gave it a contract), and `err != nil ==> !res` is a postcondition of every function of the chain; all are discharged by SMT for an unconstrained datum (any kind, nil at any depth). Termination of the recursions and all loops by decreases clauses.",
+   note=BASE_TRUST + "; A-PS (pointerstructure.Get total), A-OPTS (options come from this package's constructors), wf(ast) supplied by the parser (derived under C10: grammar typing), A-STACK.",
    tech=TECH, ref="DESIGN.md §6 C09"),
  "C14": dict(cat="proof",
    text="reflect.Value.MapKeys is specified as an arbitrary enumeration (keysOf); the postcondition of evaluateCollectionExpression is stated over sortedKeys(v) and cannot mention the enumeration, so it holds for every map order; the comparison closure passed to sort.Slice is verified to be the string order on the keys. (Filter.Execute over maps: see C17.)",
